@@ -239,6 +239,45 @@ add("C20", "keep", "altnames-filter-by-string-compare", CL + "state.go",
 			filteredAlternativeNames = append(filteredAlternativeNames, alternativeName)"""))
 add("C07", "keep", "rename-function-decryptclientinfo", SV + "auth.go", ("decryptClientInfo", "openClientInfo"))
 add("C06", "keep", "rename-function-decryptclientinfo", SV + "auth.go", ("decryptClientInfo", "openClientInfo"))
+add("C12", "break", "close-skips-closeall-when-notice-fails", MX + "session.go",
+    ("""	defer sesh.sb.closeAll()
+	// we send a notice frame telling remote to close the session
+""", """	// we send a notice frame telling remote to close the session
+"""),
+    ("""	log.Debugf("session %v closed gracefully", sesh.id)
+	return nil
+}
+
+func (sesh *Session) IsClosed() bool {""", """	sesh.sb.closeAll()
+	log.Debugf("session %v closed gracefully", sesh.id)
+	return nil
+}
+
+func (sesh *Session) IsClosed() bool {"""))
+add("C12", "keep", "close-explicit-closeall-on-every-exit", MX + "session.go",
+    ("""	defer sesh.sb.closeAll()
+	// we send a notice frame telling remote to close the session
+""", """	// we send a notice frame telling remote to close the session
+"""),
+    ("""	i, err := sesh.obfuscate(f, *buf, frameHeaderLength)
+	if err != nil {
+		return err
+	}
+	_, err = sesh.sb.send((*buf)[:i], new(net.Conn))
+	if err != nil {
+		return err
+	}
+	log.Debugf("session %v closed gracefully", sesh.id)""", """	i, err := sesh.obfuscate(f, *buf, frameHeaderLength)
+	if err != nil {
+		sesh.sb.closeAll()
+		return err
+	}
+	_, err = sesh.sb.send((*buf)[:i], new(net.Conn))
+	sesh.sb.closeAll()
+	if err != nil {
+		return err
+	}
+	log.Debugf("session %v closed gracefully", sesh.id)"""))
 add("C12", "break", "receive-backlog-bound-lowered", MX + "recvBuffer.go",
     ("const recvBufferSizeLimit = 1<<31 - 1", "const recvBufferSizeLimit = 1 << 24"))
 
